@@ -12,7 +12,7 @@
      port    UDP destination port
      st      SCMP type: "echoreq","echorep","trreq","trrep","err" (known error type), "unkerr","unkinfo"
      id      identifier of echo / traceroute messages
-     q       what an SCMP error quotes: "udp","udp0","echoreq","trreq","echorep","err","tcp",
+     q       what an SCMP error quotes: "udp","udp0","echoreq","trreq","echorep","trrep","err","tcp",
              "truncl4","truncscion","empty"
      qp      quoted source port / identifier
      path    "empty" | "seg1" | "seg2"
